@@ -587,9 +587,8 @@ func buildSiteDB(l *Loaded, pkgs ...string) *SiteDB {
 	for _, m := range db.EntryMay {
 		delete(m, top)
 	}
-	if stripped {
-		runAll()
-	}
+	_ = stripped
+	runAll()
 	return db
 }
 
@@ -897,9 +896,33 @@ func (db *SiteDB) analyse(fi *FuncInfo) {
 		}
 		s.Must["enter:"+w.Key] = true
 		s.May["enter:"+w.Key] = true
+		// Deferred unlocks registered by the caller do not run when the literal returns.
+		for k := range s.Must {
+			if strings.HasPrefix(k, "deferunlock:") || strings.HasPrefix(k, "outer|") {
+				delete(s.Must, k)
+				s.Must["outer|"+k] = true
+			}
+		}
 		return s
 	}
 	a.WrapExit = func(s *HState, call *ast.CallExpr, w *Wrapper, fc *FlowCtx[*HState]) *HState {
+		// Unlocks deferred inside the literal run when it returns.
+		for k := range s.Must {
+			if strings.HasPrefix(k, "deferunlock:") {
+				t := strings.TrimPrefix(k, "deferunlock:")
+				delete(s.Locks, t)
+				delete(s.MayL, t)
+				delete(s.Locks, t+"#stale")
+				delete(s.MayL, t+"#stale")
+				delete(s.Must, k)
+			}
+		}
+		for k := range s.Must {
+			if strings.HasPrefix(k, "outer|") {
+				delete(s.Must, k)
+				s.Must[strings.TrimPrefix(k, "outer|")] = true
+			}
+		}
 		recv := ""
 		if sel, ok := unparen(call.Fun).(*ast.SelectorExpr); ok {
 			recv = res.str(sel.X)
@@ -976,10 +999,14 @@ func (db *SiteDB) analyse(fi *FuncInfo) {
 		init.Locks[t] = true
 	}
 	for t := range db.EntryMay[fi.Obj] {
-		init.MayL[t] = true
+		if t != "\u22a4" {
+			init.MayL[t] = true
+		}
 	}
 	for t := range db.EntryMust[fi.Obj] {
-		init.MayL[t] = true
+		if t != "\u22a4" {
+			init.MayL[t] = true
+		}
 	}
 	a.Run(fi.Decl, init)
 	// Function literals that are not arguments of a wrapper (go statements, deferred
